@@ -129,12 +129,17 @@ def stringOfByte (ch : UInt8) : Bytes := appendRune ch.toUInt32
 
 def consBuf (pre : Bytes) (r : Bytes × Bool × State) : Bytes × Bool × State := (pre ++ r.1, r.2.1, r.2.2)
 
-/-- the one-byte escapes of `readString`'s inner `switch ch` (`\\r \\n \\t \\xHH`, any other byte
-stands for itself): (byte written, state) -/
+/-- the one-byte escapes of `readString`'s inner `switch ch` (`\\r \\n \\t \\a \\b \\f \\v \\xHH`, any other
+byte stands for itself): (byte written, state).  `\\a \\b \\f \\v` were added by the C14 fix (they are what
+`strconv.Quote` writes for the bytes 7, 8, 12, 11). -/
 def readEscape (ch : UInt8) (s : State) : UInt8 × State :=
   if ch == #b'r' then (13, s)
   else if ch == #b'n' then (10, s)
   else if ch == #b't' then (9, s)
+  else if ch == #b'a' then (7, s)
+  else if ch == #b'b' then (8, s)
+  else if ch == #b'f' then (12, s)
+  else if ch == #b'v' then (11, s)
   else if ch == #b'x' then readHex s
   else (ch, s)
 
